@@ -48,6 +48,18 @@ Theorem one_value_per_successful_batch :
 Proof. exact one_value_per_successful_batch_lemma. Qed.
 Print Assumptions one_value_per_successful_batch.
 
+(** ** 3. stamped with the block time: the value stored for a batch that met its threshold is the
+    newest one and carries the time of the block in which the batch completed *)
+Theorem stamped_with_block_time :
+  forall (h : list step) (now c bc bthr : Z) (outs : list output) (tol : Z) (x : sctx) (name : Z) (f : feed),
+    run_wfb init h = true ->
+    let s := run init h in
+    get c (ctxs s) = Some x -> feed_by_ctx s c = Some (name, f) -> x_open x = true ->
+    x_bthr x <= Z.of_nat (length outs) ->
+    exists d rest, query_values (snd (do_sev s now (SDone c bc bthr outs tol))) name = (d, now) :: rest.
+Proof. exact stamped_with_block_time_lemma. Qed.
+Print Assumptions stamped_with_block_time.
+
 (** ... and nothing else produces or changes a value: messages other than edit leave every feed's
     values alone (an edit only trims, see 4), and so does every service event other than a
     completed batch. *)
